@@ -33,7 +33,11 @@ def units(x):
 # synthetic machine model: forms s<nsrc>l<lat>  (nsrc register sources, one register
 # destination written last, latency lat cycles); nsrc = 0 takes an immediate
 # ------------------------------------------------------------------------------------------
-def write_models(dirpath):
+# latencies that are no dyadic fractions: sums of them depend on the order of addition
+ND_LATS = {1: 0.1, 3: 0.3, 5: 0.7}
+
+
+def write_models(dirpath, latmap=None):
     def R(s=None, d=None):
         o = {"class": "register", "name": "*"}
         if s is not None:
@@ -51,7 +55,8 @@ def write_models(dirpath):
         for lat in LATS:
             name = "s%dl%d" % (ns, lat)
             ops = [R() for _ in range(ns)] if ns else [I()]
-            forms.append({"name": name, "operands": ops + [R()], "throughput": 1.0, "latency": float(lat),
+            forms.append({"name": name, "operands": ops + [R()], "throughput": 1.0,
+                          "latency": float(latmap[lat]) if latmap else float(lat),
                           "port_pressure": [[1, "01"]]})
             iops = [R(True, False) for _ in range(ns)] if ns else [I(True, False)]
             isaforms.append({"name": name, "operands": iops + [R(False, True)]})
@@ -65,8 +70,17 @@ def write_models(dirpath):
 _SYN = {}
 
 
-def synthetic_env():
-    """(mm, sem, parser) over the synthetic model (cached per process)."""
+def synthetic_env(nd=False):
+    """(mm, sem, parser) over the synthetic model (cached per process); nd: the variant whose latencies are
+    0.1 / 0.3 / 0.7 cycles instead of 1 / 3 / 5."""
+    if nd:
+        if "nd" not in _SYN:
+            synthetic_env()
+            d = os.path.join(_SYN["dir"], "nd")
+            os.makedirs(d, exist_ok=True)
+            arch, isa = write_models(d, ND_LATS)
+            _SYN["nd"] = synth.load(arch, isa)
+        return _SYN["nd"]
     if "v" not in _SYN:
         d = os.path.join(env.WORK, "scratch", "lcds-model-%d" % os.getpid())
         os.makedirs(d, exist_ok=True)
@@ -87,6 +101,7 @@ def cleanup_synthetic():
         return                     # forked child: the directory belongs to the parent
     d = _SYN.pop("dir", None)
     _SYN.pop("v", None)
+    _SYN.pop("nd", None)
     _SYN.pop("pid", None)
     if d:
         shutil.rmtree(d, ignore_errors=True)
@@ -805,7 +820,8 @@ def sequential_result(kernel, tools, flag_deps=False):
         kd.KernelDG.INSTRUCTION_THRESHOLD = saved
     res, defects = project_lcds(dg.get_loopcarried_dependencies(), kernel)
     return {"result": res, "defects": defects, "timed_out": bool(dg.timed_out),
-            "order": list(dg.get_loopcarried_dependencies().keys())}
+            "order": list(dg.get_loopcarried_dependencies().keys()),
+            "rawlat": {k: repr(float(v["latency"])) for k, v in dg.get_loopcarried_dependencies().items()}}
 
 
 def same_order(lcd_dict, seq_order):
@@ -1280,6 +1296,8 @@ _TOOLS = {}
 def tools_for(arch):
     if arch == "syn":
         return synthetic_env()
+    if arch == "synnd":
+        return synthetic_env(nd=True)
     if arch not in _TOOLS:
         _TOOLS[arch] = synth.load_arch(arch)
     return _TOOLS[arch]
